@@ -139,6 +139,9 @@ impl CodecSpec {
     pub fn has(&self, f: Family) -> bool {
         !self.raw_new && self.fams.contains(&f)
     }
+    pub fn ap(&self, f: Family) -> bool {
+        !self.raw_new && self.addpath.contains(&f)
+    }
     pub fn describe(&self) -> String {
         if self.raw_new {
             return format!("{}: PeerCodec::new() (pre-OPEN)", self.name);
